@@ -251,7 +251,7 @@ func runC11(c *core.Ctx) {
 	// a chain beyond any round number a limit might silently be capped at (2^20 references): accepted under a larger
 	// limit - the next integer, the largest integer -, refused under its own length; in a child of its own, whose
 	// death would be attributed to this case
-	c.RunPart("l3-million-chain", 20*time.Minute, func(c *core.Ctx) {
+	c.RunPart("l3-million-chain", 4*time.Minute, func(c *core.Ctx) {
 		length := 1<<20 + 3
 		build := func() shared.DBNodeMap {
 			db := shared.NewDBNodeMap()
